@@ -148,26 +148,41 @@ pub fn max_name_len(chroms: &Vec<Chrom>) -> (r: u32)
     m
 }
 
-/// `let key_bytes = &mut vec![0u8; n]; key_bytes[..name.len()].copy_from_slice(name);`
-/// requires = the real panic condition of the slice index (`name.len() <= n`)
-pub fn padded(name: &Vec<u8>, n: usize) -> (r: Vec<u8>)
-    requires name@.len() <= n,
-    ensures r@ == pad(name@, n as int),
+/// `vec![0u8; n]`
+pub fn zero_vec(n: usize) -> (r: Vec<u8>)
+    ensures r@ == zeros(n as int),
 {
     let mut v: Vec<u8> = Vec::new();
     let mut i: usize = 0;
     while i < n
-        invariant
-            i <= n, name@.len() <= n, v@.len() == i,
-            forall|j: int| 0 <= j < i ==> (#[trigger] v@[j]) == (if j < name@.len() { name@[j] } else { 0u8 }),
+        invariant i <= n, v@.len() == i, forall|j: int| 0 <= j < i ==> (#[trigger] v@[j]) == 0u8,
         decreases n - i,
     {
-        let x = if i < name.len() { name[i] } else { 0u8 };
-        v.push(x);
+        v.push(0u8);
         i = i + 1;
     }
-    proof { assert(v@ =~= pad(name@, n as int)); }
+    proof { assert(v@ =~= zeros(n as int)); }
     v
+}
+
+/// `buf[..src.len()].copy_from_slice(src)`: requires = the real panic condition of the slice index;
+/// only the first `src.len()` bytes change, whatever the buffer held beyond them stays
+pub fn copy_prefix(buf: &mut Vec<u8>, src: &Vec<u8>)
+    requires src@.len() <= old(buf)@.len(),
+    ensures final(buf)@ == src@ + old(buf)@.subrange(src@.len() as int, old(buf)@.len() as int),
+{
+    let mut i: usize = 0;
+    while i < src.len()
+        invariant
+            i <= src@.len(), src@.len() <= buf@.len(), buf@.len() == old(buf)@.len(),
+            forall|j: int| 0 <= j < i ==> (#[trigger] buf@[j]) == src@[j],
+            forall|j: int| i <= j < buf@.len() ==> (#[trigger] buf@[j]) == old(buf)@[j],
+        decreases src@.len() - i,
+    {
+        buf.set(i, src[i]);
+        i = i + 1;
+    }
+    proof { assert(buf@ =~= src@ + old(buf)@.subrange(src@.len() as int, old(buf)@.len() as int)); }
 }
 
 //@extract fn bigtools/src/bbi/bbiwrite.rs write_chrom_tree
@@ -179,12 +194,14 @@ pub fn padded(name: &Vec<u8>, n: usize) -> (r: Vec<u8>)
 //@presub /chroms\.sort_by_key\(\|v\| \*v\.1\);/ => "" min=0 count=1
 //@presub /chroms\.sort\w*\([^;]*\);/ => havoc_order(&mut chroms); min=0
 //@presub /let max_bytes = chroms\s*\.iter\(\)\s*\.map\(\|a\| a\.0\.as_bytes\(\)\.len\(\) as u32\)\s*\.fold\(0, u32::max\);/ => let max_bytes = max_name_len(&chroms); min=1 count=1
-//@presub /let key_bytes = &mut vec!\[0u8; ([^\]]+)\];\s*let chrom_bytes = chrom\.as_bytes\(\);\s*key_bytes\[\.\.chrom_bytes\.len\(\)\]\.copy_from_slice\(chrom_bytes\);/ => let key_bytes = &padded(chrom, \1); min=1 count=1
+//@presub /let (?:mut )?key_bytes = (?:&mut )?vec!\[0u8; ([^\]]+)\];/ => let mut key_bytes__v = zero_vec(\1); min=1 count=1
+//@presub /let chrom_bytes = chrom\.as_bytes\(\);/ => let chrom_bytes = chrom; min=0 count=1
+//@presub /key_bytes\[\.\.chrom_bytes\.len\(\)\]\.copy_from_slice\(chrom_bytes\);/ => copy_prefix(&mut key_bytes__v, chrom_bytes); min=0 count=1
 //@presub /let length = chrom_sizes\s*\.get\(&chrom\[\.\.\]\)\s*\.expect\(&format!\("Expected length for chrom: \{\}", chrom\)\);/ => let length = &chroms[i__1].2; min=1 count=1
 //@sub /<W: Write \+ Seek \+ Send \+ 'static>\(\s*file: &mut BufWriter<W>,\s*chrom_sizes: std::collections::HashMap<String, u32>,\s*chrom_ids: &std::collections::HashMap<String, u32>,/ => (file: &mut Sink, chroms: Vec<Chrom>, min=1
 //@sub /io::Result<\(\)>/ => Result<(), IoError> min=1
 //@sub /for \(chrom, id\) in chroms \{/ => for i__1 in 0..chroms.len() { let chrom = &chroms[i__1].0; let id = &chroms[i__1].1; min=1 count=1
-//@sub /put_bytes\(key_bytes\)/ => put_bytes(key_bytes.as_slice()) min=0
+//@sub /put_bytes\(&?(?:mut )?key_bytes\)/ => put_bytes(key_bytes__v.as_slice()) min=0
 //@ret r
 //@sig
     requires
